@@ -1,6 +1,6 @@
 (** C08 — bounded decoding respects its limit and agrees with full decoding.
-    Only statements here; proofs live in theories/C07/Proofs*.v. *)
-From OxVerif Require Import C07.Proofs.
+    Only statements here; proofs live in theories/C07/Proofs*.v and BoundedFull.v. *)
+From OxVerif Require Import C07.Proofs C07.BoundedFull.
 From OxGen Require Import FilterConsts.
 
 (** per filter: LE = the result fits the limit; AG = any limit that fits the result gives the same
@@ -68,6 +68,112 @@ Check c08_chain_lim : forall zlib dp L fs d x, fs <> [] -> decodes_chain_lim zli
   decode_stream_lim zlib (Some fs) dp d L = Some x.
 Print Assumptions c08_chain_lim.
 
+(** WHOLE CHAIN, every filter (LZW and predictor stages included).  For a run of the unbounded driver that
+    returns Ok r:
+      buffers_fit   = every stage buffer of that run (each stage's output before and after its predictor; the data
+                      itself when there is no filter) has length <= L;
+      predictors_ok = at every stage the predictor steps of the two drivers coincide (pred_agrees: after Flate/LZW
+                      the predictor succeeds — the unbounded driver swallows its error, the bounded one propagates
+                      it; after a text filter the predictor only the unbounded driver applies leaves the data as is);
+      flate_ok      = the hypothesis on the Section variable zlib at every Flate stage of the run:
+                      FlateAgreesAt p d := forall raw L, (unbounded Flate stage before the predictor) = Some raw ->
+                      len raw <= L -> decode_flate_lim zlib d L = Some raw
+                      (implied by "the standard zlib path succeeded", c08_flate_std_agrees).
+    Then the bounded driver returns the same r. *)
+Theorem c08_bounded_agrees : forall zlib recover fk dp data L r,
+  decode_stream zlib recover fk dp data = Some r ->
+  buffers_fit zlib recover fk dp data L -> predictors_ok zlib recover fk dp data -> flate_ok zlib recover fk dp data ->
+  decode_stream_lim zlib fk dp data L = Some r.
+Proof. exact bounded_agrees. Qed.
+Check c08_bounded_agrees : forall zlib recover fk dp data L r,
+  decode_stream zlib recover fk dp data = Some r ->
+  buffers_fit zlib recover fk dp data L -> predictors_ok zlib recover fk dp data -> flate_ok zlib recover fk dp data ->
+  decode_stream_lim zlib fk dp data L = Some r.
+Print Assumptions c08_bounded_agrees.
+
+(** the same with the Flate hypothesis stated once for the Section variables *)
+Theorem c08_bounded_agrees_flate_hyp : forall zlib recover, FlateAgrees zlib recover ->
+  forall fk dp data L r, decode_stream zlib recover fk dp data = Some r ->
+  buffers_fit zlib recover fk dp data L -> predictors_ok zlib recover fk dp data ->
+  decode_stream_lim zlib fk dp data L = Some r.
+Proof. exact bounded_agrees_flate_hyp. Qed.
+Check c08_bounded_agrees_flate_hyp : forall zlib recover, FlateAgrees zlib recover ->
+  forall fk dp data L r, decode_stream zlib recover fk dp data = Some r ->
+  buffers_fit zlib recover fk dp data L -> predictors_ok zlib recover fk dp data ->
+  decode_stream_lim zlib fk dp data L = Some r.
+Print Assumptions c08_bounded_agrees_flate_hyp.
+
+(** hex / 85 / LZW / RunLength chains without /Predictor: fitting buffers are the only hypothesis *)
+Theorem c08_bounded_agrees_no_predictor : forall zlib recover fs dp data L r,
+  ~ In FFlate fs -> (forall i, no_pred (get_filter_params dp i)) ->
+  decode_stream zlib recover (Some fs) dp data = Some r ->
+  buffers_fit zlib recover (Some fs) dp data L -> decode_stream_lim zlib (Some fs) dp data L = Some r.
+Proof. exact bounded_agrees_no_predictor. Qed.
+Check c08_bounded_agrees_no_predictor : forall zlib recover fs dp data L r,
+  ~ In FFlate fs -> (forall i, no_pred (get_filter_params dp i)) ->
+  decode_stream zlib recover (Some fs) dp data = Some r ->
+  buffers_fit zlib recover (Some fs) dp data L -> decode_stream_lim zlib (Some fs) dp data L = Some r.
+Print Assumptions c08_bounded_agrees_no_predictor.
+
+Theorem c08_flate_std_agrees : forall zlib recover p d, try_standard_zlib zlib d <> None -> FlateAgreesAt zlib recover p d.
+Proof. exact flate_std_agrees. Qed.
+Check c08_flate_std_agrees : forall zlib recover p d, try_standard_zlib zlib d <> None -> FlateAgreesAt zlib recover p d.
+Print Assumptions c08_flate_std_agrees.
+
+(** one stage, any filter *)
+Theorem c08_stage_agrees : forall zlib recover f p d L r, apply_filter_with_params zlib recover f p d = Some r ->
+  stage_fits zlib recover L f p d -> stage_pred_ok zlib recover f p d -> stage_flate_ok zlib recover f p d ->
+  stage_lim zlib f p d L = Some r.
+Proof. exact stage_agrees. Qed.
+Check c08_stage_agrees : forall zlib recover f p d L r, apply_filter_with_params zlib recover f p d = Some r ->
+  stage_fits zlib recover L f p d -> stage_pred_ok zlib recover f p d -> stage_flate_ok zlib recover f p d ->
+  stage_lim zlib f p d L = Some r.
+Print Assumptions c08_stage_agrees.
+
+(** when the two drivers differ although every buffer fits: exactly when the predictor steps differ ... *)
+Theorem c08_stage_agrees_iff : forall zlib recover f p d L raw, raw_stage zlib recover f p d = Some raw ->
+  (len raw <= L)%N -> (len (post_pred p raw) <= L)%N -> stage_flate_ok zlib recover f p d ->
+  (stage_lim zlib f p d L = apply_filter_with_params zlib recover f p d <-> pred_agrees f p raw).
+Proof. exact stage_agrees_iff. Qed.
+Check c08_stage_agrees_iff : forall zlib recover f p d L raw, raw_stage zlib recover f p d = Some raw ->
+  (len raw <= L)%N -> (len (post_pred p raw) <= L)%N -> stage_flate_ok zlib recover f p d ->
+  (stage_lim zlib f p d L = apply_filter_with_params zlib recover f p d <-> pred_agrees f p raw).
+Print Assumptions c08_stage_agrees_iff.
+
+(** ... and then in one of two ways: (a) Flate/LZW stage, predictor error: unbounded Ok(unpredicted data), bounded Err;
+    (b) text-filter stage with an effective /Predictor: unbounded Ok(predicted), bounded Ok(raw) *)
+Theorem c08_stage_differs_cases : forall zlib recover f p d L raw, raw_stage zlib recover f p d = Some raw ->
+  (len raw <= L)%N -> stage_flate_ok zlib recover f p d -> ~ pred_agrees f p raw ->
+  exists ps pr, p = Some ps /\ p_predictor ps = Some pr /\
+    ((applies f = true /\ apply_predictor raw (as_u32 pr) ps = None /\
+      apply_filter_with_params zlib recover f p d = Some raw /\ stage_lim zlib f p d L = None)
+     \/
+     (applies f = false /\ exists x, apply_predictor raw (as_u32 pr) ps = Some x /\ x <> raw /\
+      apply_filter_with_params zlib recover f p d = Some x /\ stage_lim zlib f p d L = Some raw)).
+Proof. exact stage_differs_cases. Qed.
+Check c08_stage_differs_cases : forall zlib recover f p d L raw, raw_stage zlib recover f p d = Some raw ->
+  (len raw <= L)%N -> stage_flate_ok zlib recover f p d -> ~ pred_agrees f p raw ->
+  exists ps pr, p = Some ps /\ p_predictor ps = Some pr /\
+    ((applies f = true /\ apply_predictor raw (as_u32 pr) ps = None /\
+      apply_filter_with_params zlib recover f p d = Some raw /\ stage_lim zlib f p d L = None)
+     \/
+     (applies f = false /\ exists x, apply_predictor raw (as_u32 pr) ps = Some x /\ x <> raw /\
+      apply_filter_with_params zlib recover f p d = Some x /\ stage_lim zlib f p d L = Some raw)).
+Print Assumptions c08_stage_differs_cases.
+
+(** monotonicity of the public bounded entry in its limit (any filters, parameters, data; no hypothesis on zlib) *)
+Theorem c08_bounded_monotone : forall zlib fk dp data L L' r,
+  decode_stream_lim zlib fk dp data L = Some r -> (L <= L')%N -> decode_stream_lim zlib fk dp data L' = Some r.
+Proof. exact bounded_monotone. Qed.
+Check c08_bounded_monotone : forall zlib fk dp data L L' r,
+  decode_stream_lim zlib fk dp data L = Some r -> (L <= L')%N -> decode_stream_lim zlib fk dp data L' = Some r.
+Print Assumptions c08_bounded_monotone.
+
+Theorem c08_lzw_monotone : forall d ec L L' r, decode_lzw_lim d ec L = Some r -> (L <= L')%N -> decode_lzw_lim d ec L' = Some r.
+Proof. exact lzw_mono. Qed.
+Check c08_lzw_monotone : forall d ec L L' r, decode_lzw_lim d ec L = Some r -> (L <= L')%N -> decode_lzw_lim d ec L' = Some r.
+Print Assumptions c08_lzw_monotone.
+
 (** observation kept visible: LZW's in-loop check alone is not a bound (the post-filter check is) *)
 Theorem c08_lzw_inner_check_not_a_bound : exists d, decode_lzw_lim d true 0 = Some [65%N].
 Proof. exact lzw_inner_check_not_a_bound. Qed.
@@ -76,3 +182,13 @@ Print Assumptions c08_lzw_inner_check_not_a_bound.
 
 Example c08_nonvacuous : decode_rl_lim [254; 65; 128]%N 3 = Some [65; 65; 65]%N /\ decode_rl_lim [254; 65; 128]%N 2 = None.
 Proof. split; vm_compute; reflexivity. Qed.
+(** hypotheses of c08_bounded_agrees hold on /Filter [/ASCIIHexDecode /LZWDecode] + PNG predictor at L = peak buffer,
+    and both divergences of c08_stage_differs_cases occur *)
+Example c08_bounded_agrees_nonvacuous :
+  decode_stream ex_zlib ex_recover (Some [FHex; FLzw]) ex_dp ex_chain_data = Some [1; 2; 3; 2; 3; 4]%N /\
+  buffers_fit ex_zlib ex_recover (Some [FHex; FLzw]) ex_dp ex_chain_data 11 /\
+  predictors_ok ex_zlib ex_recover (Some [FHex; FLzw]) ex_dp ex_chain_data /\
+  flate_ok ex_zlib ex_recover (Some [FHex; FLzw]) ex_dp ex_chain_data /\
+  decode_stream_lim ex_zlib (Some [FHex; FLzw]) ex_dp ex_chain_data 11 = Some [1; 2; 3; 2; 3; 4]%N /\
+  decode_stream_lim ex_zlib (Some [FHex; FLzw]) ex_dp ex_chain_data 10 = None.
+Proof. exact bounded_agrees_nonvacuous. Qed.
